@@ -213,6 +213,16 @@ Theorem C04_no_obb_remains : forall taken heap ctr pats users,
 Proof. exact nested_guarded. Qed.
 Print Assumptions C04_no_obb_remains.
 
+(* --- the `inherit` keyword ------------------------------------------------------------------ *)
+(* every attribute whose grammar accepts `inherit` (hand-reviewed list in Model/Style.v) is in the SOURCE-DERIVED table
+   of attributes for which svgtree resolves the keyword: no such attribute can keep the literal value `inherit` *)
+Theorem C04_inherit_table : forall a, In a expected_inherit_attrs -> inherit_resolved a = true.
+Proof.
+  assert (H : forallb inherit_resolved expected_inherit_attrs = true) by (vm_compute; reflexivity).
+  intros a Ha. rewrite forallb_forall in H. apply H. exact Ha.
+Qed.
+Print Assumptions C04_inherit_table.
+
 (* --- non-vacuity -------------------------------------------------------------------------- *)
 (* the F23 witness 0.1, 0.10000004, 0.05 (exact f32 values) now normalises to a sorted list *)
 Example C04_nv_F23 :
